@@ -4,12 +4,14 @@ import (
 	"bytes"
 	"context"
 	"fmt"
+	"github.com/glebziz/fs_db"
 	"os"
 	"path/filepath"
 	"sort"
 	"strings"
 	"sync"
 	"sync/atomic"
+	"time"
 
 	"github.com/glebziz/fs_db/pkg/verif"
 
@@ -297,6 +299,150 @@ func c05FreshStart(tier string, seed int64, idx int, scratch string) rt.CaseResu
 	}
 	if idx == 0 {
 		c.Sample = map[string]any{"scenario": "simultaneous first writes into an empty database, then a reopen"}
+	}
+	return c
+}
+
+func init() {
+	p := Registry["C05"]
+	p.Roles["serverrestart"] = Role{N: func(t string) int { return tierN(t, 4, 32) }, Case: c05ServerRestart}
+	p.Rule += " Role serverrestart: the server application is stopped and started again on the same address and directories while a gRPC client keeps its connection and its handles: transactions that were open (with writes) are gone - every operation and Commit through their handles fails with ErrTxNotFound, Rollback is a no-op, nothing of them is visible; transactions that had ended stay ended; the committed state is what it was; new transactions work; a second restart changes nothing."
+}
+
+// c05ServerRestart: a restart of the server under a live client.
+func c05ServerRestart(tier string, seed int64, idx int, scratch string) rt.CaseResult {
+	var c rt.CaseResult
+	env, err := dbx.Open(dbx.Options{Mode: dbx.Grpc, Dir: filepath.Join(scratch, "db")})
+	if err != nil {
+		c.Violate("open-failed", err.Error(), nil)
+		return c
+	}
+	defer func() { env.Close() }()
+	rng := seqrun.Rng(seed, "C05sr", idx)
+	expect := map[string][]byte{}
+	for i := 0; i < 6; i++ {
+		k := fmt.Sprintf("s%d", i)
+		expect[k] = seqrun.Content(fmt.Sprintf("sr%d-%d", idx, i), 20)
+		env.DB.Set(ctxBg, k, expect[k])
+	}
+	type old struct {
+		tx interface {
+			Get(context.Context, string) ([]byte, error)
+			GetKeys(context.Context) ([]string, error)
+			Set(context.Context, string, []byte) error
+			Delete(context.Context, string) error
+			Commit(context.Context) error
+			Rollback(context.Context) error
+		}
+		state string
+		level int
+	}
+	var olds []old
+	for restart := 0; restart < 2; restart++ {
+		rt.Beat()
+		n := 4 + rng.Intn(8)
+		for i := 0; i < n; i++ {
+			level := rng.Intn(4)
+			tx, err := env.DB.Begin(ctxBg, verif.IsoLevel(level))
+			if err != nil {
+				c.Violate("begin-failed role=serverrestart", fmt.Sprintf("restart %d: %v", restart, err), nil)
+				return c
+			}
+			state := []string{"open-with-writes", "open-idle", "committed", "rolled-back"}[rng.Intn(4)]
+			switch state {
+			case "open-with-writes":
+				tx.Set(ctxBg, fmt.Sprintf("s%d", rng.Intn(6)), []byte("uncommitted"))
+				tx.Set(ctxBg, fmt.Sprintf("only-in-open-tx-%d-%d", restart, i), []byte("uncommitted"))
+				tx.Delete(ctxBg, fmt.Sprintf("s%d", rng.Intn(6)))
+			case "committed":
+				k := fmt.Sprintf("s%d", rng.Intn(6))
+				v := seqrun.Content(fmt.Sprintf("sr%d-c%d-%d", idx, restart, i), 15)
+				tx.Set(ctxBg, k, v)
+				if err := tx.Commit(ctxBg); err != nil {
+					c.Violate("commit-failed role=serverrestart", err.Error(), nil)
+					return c
+				}
+				expect[k] = v
+			case "rolled-back":
+				tx.Set(ctxBg, fmt.Sprintf("s%d", rng.Intn(6)), []byte("rolled back"))
+				tx.Rollback(ctxBg)
+			}
+			olds = append(olds, old{tx, state, level})
+		}
+		if err := env.RestartServer(); err != nil {
+			c.Inconclusive = append(c.Inconclusive, "server restart: "+err.Error())
+			return c
+		}
+		// a few new transactions first: whatever identifies a transaction must not be handed out again
+		var fresh []interface {
+			Get(context.Context, string) ([]byte, error)
+			Rollback(context.Context) error
+		}
+		for i := 0; i < 12; i++ {
+			var tx fs_db.Tx
+			var err error
+			for attempt := 0; attempt < 50; attempt++ { // the client reconnects
+				tx, err = env.DB.Begin(ctxBg, verif.IsoLevel(rng.Intn(4)))
+				if err == nil {
+					break
+				}
+				time.Sleep(20 * time.Millisecond)
+			}
+			if err != nil {
+				c.Violate("begin-failed after-server-restart", err.Error(), nil)
+				return c
+			}
+			fresh = append(fresh, tx)
+		}
+		rp := map[string]any{"seed": seed, "case": idx, "restart": restart + 1}
+		for i, o := range olds {
+			rp["handle"], rp["state_before_the_restart"], rp["level"] = i, o.state, o.level
+			_, e1 := o.tx.Get(ctxBg, "s0")
+			_, e2 := o.tx.GetKeys(ctxBg)
+			e3 := o.tx.Set(ctxBg, "s1", []byte("through a handle from before the restart"))
+			e4 := o.tx.Delete(ctxBg, "s2")
+			var e5 error
+			if i%2 == 0 {
+				e5 = o.tx.Commit(ctxBg)
+			}
+			c.Evals += 5
+			for j, e := range []error{e1, e2, e3, e4, e5} {
+				if j == 4 && i%2 != 0 {
+					continue
+				}
+				if cls := seqrun.Class(e); cls != refmodel.TxNotFound {
+					op := []string{"get", "getkeys", "set", "delete", "commit"}[j]
+					c.Violate(fmt.Sprintf("transaction-survived-server-restart op=%s got=%s state=%s", op, cls, o.state), fmt.Sprintf("restart %d: %s through a transaction handle from before the restart (%s) gave %s instead of ErrTxNotFound", restart+1, op, o.state, cls), rp)
+					return c
+				}
+			}
+			if e := o.tx.Rollback(ctxBg); e != nil {
+				c.Violate("late-rollback-not-a-no-op after-server-restart", fmt.Sprint(e), rp)
+				return c
+			}
+		}
+		for _, tx := range fresh {
+			if _, e := tx.Get(ctxBg, "s0"); e != nil {
+				c.Violate("live-transaction-harmed-by-dead-handle after-server-restart", fmt.Sprintf("a transaction begun after the restart fails to read after the old handles were used: %v", e), rp)
+				return c
+			}
+			tx.Rollback(ctxBg)
+		}
+		keys, kerr := env.DB.GetKeys(ctxBg)
+		if kerr != nil || len(keys) != len(expect) {
+			c.Violate("keys-wrong after-server-restart", fmt.Sprintf("restart %d: GetKeys returns %v (%v), %d keys are committed", restart+1, keys, kerr, len(expect)), rp)
+			return c
+		}
+		for k, v := range expect {
+			if b, gerr := env.DB.Get(ctxBg, k); gerr != nil || !bytes.Equal(b, v) {
+				c.Violate("read-wrong-value after-server-restart", fmt.Sprintf("restart %d: %q reads %s (%v), committed %s", restart+1, k, seqrun.Describe(b), gerr, seqrun.Describe(v)), rp)
+				return c
+			}
+		}
+		c.AddDistinct(fmt.Sprintf("serverrestart/%d", restart+1))
+	}
+	if idx == 0 {
+		c.Sample = map[string]any{"handles_from_before_a_restart": len(olds)}
 	}
 	return c
 }
